@@ -85,7 +85,7 @@ TraceInterim == /\ active /\ HasLine /\ Line.ev = "Response" /\ Line.kind = "int
 \* the handler is entered: what it sees is what framing assigns to request cur
 TraceHandle ==
     /\ active /\ HasLine /\ Line.ev = "Handle"
-    /\ Handle(Line.rd)
+    /\ Handle(IF Line.rd = -1 THEN (IF cfg.streaming THEN reqs[cur].headEnd ELSE reqs[cur].end) ELSE Line.rd)   \* -1: real sockets, position unknown
     /\ Line.seq = cur
     /\ LET e == Expected(script[cur], cur) IN
        /\ Line.method = e.method /\ Line.target = e.target /\ Line.ver = e.ver
@@ -100,7 +100,7 @@ OneRun(i, c, k) == IF k = 0 THEN << >> ELSE <<<<i, c, c + k>>>>
 TraceReadBuffered ==
     /\ active /\ HasLine /\ Line.ev = "Read" /\ ~cfg.streaming /\ phase = "handle" /\ ~readDone
     /\ Line.k = BodyLen(cur) /\ Line.runs = OneRun(cur, 0, Line.k) /\ Line.err = ""
-    /\ Line.rd = rd
+    /\ Line.rd = rd \/ Line.rd = -1
     /\ readDone' = TRUE
     /\ Consume /\ UNCHANGED <<vars, script, active, eofSeen, unread, behs, level, resps>>
 
@@ -113,10 +113,10 @@ TraceReadStream ==
     /\ Line.eof => cons + Line.k = BodyLen(cur)          \* EOF is not reported early
     /\ (cons = BodyLen(cur) /\ Line.p > 0) => Line.eof   \* nor late: a read at the end reports EOF
     /\ ~eofSeen \/ Line.k = 0
-    /\ rd <= Line.rd /\ Line.rd <= reqs[cur].end /\ Line.rd <= sent   \* never consumes beyond the body
+    /\ Line.rd = -1 \/ (rd <= Line.rd /\ Line.rd <= reqs[cur].end /\ Line.rd <= sent)   \* never consumes beyond the body
     /\ IF Line.k = 0 THEN UNCHANGED cons ELSE cons' = cons + Line.k
     /\ cons + Line.k <= BodyLen(cur)
-    /\ rd' = Line.rd
+    /\ rd' = (IF Line.rd = -1 THEN rd ELSE Line.rd)
     /\ eofSeen' = (eofSeen \/ Line.eof)
     /\ Consume
     /\ UNCHANGED <<reqs, cfg, sent, eof, phase, cur, interim, hlog, out, topen, pairReq, tlog, script, active, readDone, unread, behs, level, resps>>
